@@ -31,7 +31,12 @@ impl<S: ShortGroupSignatureScheme> Presentation<S> {
                         id
                     )))
                 }
-                (_, _) => {}
+                (_, _) => {
+                    return Err(Error::InvalidPresentationData(format!(
+                        "expected a signature proof for statement '{}', but a different proof was found",
+                        id
+                    )))
+                }
             }
         }
 
